@@ -1,3 +1,6 @@
 import PrqlModel.Model.Target
 import PrqlModel.Model.Text
 import PrqlModel.Props.C18
+import PrqlModel.Lemmas.Text
+import PrqlModel.Props.C13
+import PrqlModel.Props.C12
